@@ -439,6 +439,13 @@ func fieldIndex(t types.Type, name string) (int, bool) {
 			return i, true
 		}
 	}
+	if to, ok := aliasedField(t, name); ok {
+		for i := 0; i < st.NumFields(); i++ {
+			if st.Field(i).Name() == to {
+				return i, true
+			}
+		}
+	}
 	return 0, false
 }
 
